@@ -1103,6 +1103,14 @@ def data_kinds(fn, arrays):
         if isinstance(e, ast.Call) and pf.call_name(e) in ("id", "len") and len(e.args) == 1 \
                 and isinstance(e.args[0], ast.Name) and e.args[0].id in arrays:
             return {"meta"}
+        if isinstance(e, ast.Compare) and all(isinstance(o, (ast.Is, ast.IsNot)) for o in e.ops):
+            # object identity of the argument says nothing about the values it holds
+            for c in [e.left] + list(e.comparators):
+                if isinstance(c, ast.Name) and c.id in arrays:
+                    out |= {"meta"}
+                else:
+                    out |= kind(c)
+            return out
         if isinstance(e, ast.Name):
             if e.id in arrays:
                 return {"content"}
@@ -1140,6 +1148,12 @@ def rule_stateless(chk, prog):
             if r is not None and r[1].name != "FeatNormalizer":
                 rs[nm] = hinline.inline_helpers(r[2], hinline.class_resolver(prog, nmod, cls))
         targets.append((FN, nmod, cls, rs))
+    # the list classes: every method except the constructor is an evaluation / query routine
+    for rel, m, cname in ((FN, nmod, "FeatNormalizerList"), (TD, mod, "FeatureList")):
+        cls = m.cls(cname)
+        rs = {nm: hinline.inline_helpers(fn, hinline.class_resolver(prog, m, cls))
+              for nm, fn in pf.methods(cls).items() if nm != "__init__"}
+        targets.append((rel, m, cls, rs))
     for rel, m, cls, routines in targets:
         written = {}
         for nm, fn in routines.items():
@@ -1186,12 +1200,17 @@ def rule_stateless(chk, prog):
                     chk.ok("stateless", inst + " after recomputing it in the same call")
                     continue
                 guards = []
-                for w in own.get(attr, []):
+                for w in own.get(attr, []):  # tests deciding a refresh in this routine
                     g = pf.parent(w)
                     while g is not None and g is not fn:
                         if isinstance(g, ast.If):
                             guards.append(g)
                         g = pf.parent(g)
+                g, child = pf.parent(n), n  # tests deciding whether the stored value is used
+                while g is not None and g is not fn:
+                    if isinstance(g, (ast.If, ast.IfExp)) and g.test is not child:
+                        guards.append(g)
+                    child, g = g, pf.parent(g)
                 def always_true(t):
                     if isinstance(t, ast.Constant):
                         return bool(t.value)
@@ -1218,11 +1237,12 @@ def rule_stateless(chk, prog):
                     chk.ok("stateless", inst + " under a content-dependent test (not decided)", nontrivial=False)
                 else:
                     chk.violation("stateless", rel, "%s.%s" % (cls.name, nm), "self.%s" % attr, n.lineno,
-                                  "%s reuses self.%s (computed by %s of an earlier call) unless `%s`; that test looks "
-                                  "only at %s, never at the values in the array, so a buffer that was refilled in place "
-                                  "(or an address handed out again) gets the derivative factors of the old contents" % (
+                                  "%s reuses self.%s (computed by %s of an earlier call); whether it does is decided by "
+                                  "`%s`, a test that looks only at %s, never at the values in the array, so a buffer that "
+                                  "was updated in place (or an address handed out again) is evaluated with the factors "
+                                  "of its old contents" % (
                                       nm, attr, "/".join(sorted(set(written[attr]))), pf.src(guards[0].test)[:90],
-                                      "the memory address / shape / strides of the argument" if "meta" in ks
+                                      "the identity / memory address / shape / strides of the argument" if "meta" in ks
                                       else "object state"), instance=inst)
 
 
@@ -1420,6 +1440,10 @@ def mutants(tree):
         M("SignedUMap caches its denominator per memory block (key = address, shape, strides)", TD,
           "    def fill_feat_(self, y, x):\n        i = self.i\n        y[:] = x[i] / np.sqrt(self.gamma + x[i] * x[i])\n\n    def fill_deriv_(self, dfdx, dfdy, x):\n        i = self.i\n        dfdx[i] += dfdy * self.gamma / (self.gamma + x[i] * x[i]) ** 1.5\n",
           "    _key = None\n    _den = None\n\n    def _get_den(self, x, refresh=False):\n        key = (x.ctypes.data, x.shape, x.strides)\n        if refresh or self._den is None or key != self._key:\n            self._den = self.gamma + x[self.i] * x[self.i]\n            self._key = key\n        return self._den\n\n    def fill_feat_(self, y, x):\n        i = self.i\n        y[:] = x[i] / np.sqrt(self._get_den(x, refresh=True))\n\n    def fill_deriv_(self, dfdx, dfdy, x):\n        i = self.i\n        dfdx[i] += dfdy * self.gamma / self._get_den(x) ** 1.5\n",
+          expect="stateless"),
+        M("normaliser list keeps (X0T, rho, inh) of the forward pass and reuses them for the same array object", FN,
+          "        rho_term, inh_term = self._get_rho_and_inh(X0T)\n        dfdrho = np.zeros_like(rho_term)",
+          "        if getattr(self, \"_sl\", None) is not None and self._sl[0] is X0T:\n            rho_term, inh_term = self._sl[1:]\n        else:\n            rho_term, inh_term = self._get_rho_and_inh(X0T)\n        self._sl = (X0T, rho_term, inh_term)\n        dfdrho = np.zeros_like(rho_term)",
           expect="stateless"),
         M("fill_vals_ writes every map into row 0", TD, "self.feat_list[i].fill_feat_(tdesc[i], xdesc)",
           "self.feat_list[i].fill_feat_(tdesc[0], xdesc)", count=2, expect="list-iter"),
